@@ -267,3 +267,48 @@ def replay_link_trail(has_trail, tok, tok2):
 
     walk(root)
     return ("parse(" + repr(doc) + ")", bool(bad), f"two adjacent strings in the children of a node: {bad[:2]}")
+
+
+# ---------------------------------------------------------------- tokenizer: quote masking inside tags is undone
+from wikitextprocessor.common import MAGIC_SQUOTE_CHAR
+from wikitextprocessor.parser import token_iter
+
+
+def tokens_unmasked(level: int, q: str, v: str) -> bool:
+    """token_iter masks single quotes inside HTML tags while it looks for bold/italic runs; whatever the line is (plain or
+    the title of a heading, which is tokenized by a recursive call), no yielded token carries the mask character, and the
+    tokens spell the line."""
+    ctx.start_page("T")
+    tag = "<b t=" + q + v + q + " u='w'>"
+    line = ("=" * level + " " if level else "") + "p" + tag + "x</b>" + (" " + "=" * level if level else "")
+    toks = [t for _, t in token_iter(ctx, line)]
+    for t in toks:
+        if MAGIC_SQUOTE_CHAR in t:
+            return False
+    body = "".join(t for t in toks if not (t[:1] in "<>" and t[1:2] == "="))
+    return body.replace(" ", "") == ("p" + tag + "x</b>").replace(" ", "")
+
+
+def replay_tokens_unmasked(level, q, v):
+    w = Wtp(quiet=True, quiet_output=True)
+    w.start_page("T")
+    tag = "<b t=" + q + v + q + " u='w'>"
+    doc = ("=" * level + " " if level else "") + "p" + tag + "x</b>" + (" " + "=" * level if level else "")
+    root = w.parse(doc)
+    bad = []
+
+    def walk(n):
+        if isinstance(n, WikiNode):
+            for k, val in (n.attrs or {}).items():
+                if any(ord(c) >= 0x10203E for c in str(k) + str(val)):
+                    bad.append((n.kind.name, k, val))
+            for c in n.children:
+                walk(c)
+            for a in n.largs:
+                for c in a:
+                    walk(c)
+        elif isinstance(n, str) and any(ord(c) >= 0x10203E for c in n):
+            bad.append(("text", n))
+
+    walk(root)
+    return ("parse(" + repr(doc) + ")", bool(bad), f"an internal placeholder character appears in the tree: {bad[:2]}")
